@@ -417,6 +417,33 @@ def d6_transports(ctx, js):
     ctx.check(rule, 'json#dict-description', ok, 'dictionary skeleton stored under description.OBSDICT and read from there', 'dict skeleton handling differs')
 
 
+def d7_forwarding(ctx, js):
+    from .. import forwarding
+    rule = 'C11-D6'
+    n = 0
+    n += forwarding.check(ctx, rule, js, 'load_json_dict', js, 'load_json', skip=('full_output',))
+    n += forwarding.check(ctx, rule, js, 'dump_dict_to_json', js, 'dump_to_json', skip=('description',))
+    n += forwarding.check(ctx, rule, js, 'import_json_string', js, '_parse_json_dict')
+    n += forwarding.check(ctx, rule, js, 'load_json', js, '_parse_json_dict')
+    n += forwarding.check(ctx, rule, js, 'dump_to_json', js, 'create_json_string')
+    pm = ctx.repo.mod('input.pandas')
+    n += forwarding.check(ctx, rule, pm, 'to_sql', pm, '_serialize_df')
+    n += forwarding.check(ctx, rule, pm, 'read_sql', pm, '_deserialize_df')
+    n += forwarding.check(ctx, rule, pm, 'load_df', pm, '_deserialize_df')
+    ctx.floor('forwarded wrapper options (json / pandas)', n, 12)
+    # flattening order: arrays are written in C order and reshaped in C order
+    wf = js.func('create_json_string.write_Array_to_dict')
+    rv = [c for c in walk(wf) if isinstance(c, ast.Call) and (js.dotted(c.func) or '') in ('numpy.ravel',) or (isinstance(c, ast.Call) and isinstance(c.func, ast.Attribute) and c.func.attr in ('ravel', 'flatten'))]
+    okw = len(rv) == 1 and (kwarg(rv[0], 'order') is None or unparse(kwarg(rv[0], 'order')) == "'C'") and len(rv[0].args) <= 1
+    rf = js.func('_parse_json_dict.get_Array_from_dict')
+    rs = [c for c in walk(rf) if isinstance(c, ast.Call) and (js.dotted(c.func) or '') == 'numpy.reshape']
+    okr = len(rs) == 1 and kwarg(rs[0], 'order') is None and unparse(rs[0].args[1]) == 'layout'
+    ctx.check('C11-D3', 'json#array-flatten-order', okw and okr, 'arrays are flattened in C order by the writer and reshaped in C order by the reader',
+              'writer flattens with %s, reader reshapes with %s: elements of non-contiguous arrays are permuted' % ([unparse(c) for c in rv], [unparse(c) for c in rs]), js.loc(wf))
+    lay = [s_ for s_ in statements(wf) if isinstance(s_, ast.Assign) and unparse(s_.targets[0]) == "d['layout']"]
+    ctx.check('C11-D3', 'json#array-layout', len(lay) == 1 and 'oa.shape' in unparse(lay[0].value), 'layout = logical shape of the array', 'layout = %s' % [unparse(x.value) for x in lay])
+
+
 def run(ctx):
     ctx.rule('C11-D1', 'emitted document is contained in the shipped schema')
     ctx.rule('C11-D2', 'writer/reader key and type-tag agreement')
@@ -432,6 +459,7 @@ def run(ctx):
     ctx.guarded('C11-D4', 'json@offsets', d4_offsets, ctx, js)
     ctx.guarded('C11-D5', 'json@effects', d5_effects, ctx, js)
     ctx.guarded('C11-D6', 'json@transports', d6_transports, ctx, js)
+    ctx.guarded('C11-D6', 'json@forwarding', d7_forwarding, ctx, js)
     from .. import samplerule
     ctx.guarded('C11-D4', 'json@samples', samplerule.check, ctx, 'C11-D4', js)
 
@@ -452,5 +480,7 @@ SELFTEST = [
     ('pickle-mode', 'pyerrors/misc.py', "    with open(path, 'rb') as file:\n        return pickle.load(file)", "    with open(path, 'r') as file:\n        return pickle.load(file)", 'C11-D6'),
     ('writer-mutates-obs', 'pyerrors/input/json.py', "        d['value'] = [o.value]\n", "        d['value'] = [o.value]\n        o.tag = None\n", 'C11-D5'),
     ('cfg-column', 'pyerrors/input/json.py', "retd['idl'].append([di[0] for di in rep['deltas']])", "retd['idl'].append([di[1] for di in rep['deltas']])", 'C11-D4'),
+    ('ravel-order-K', 'pyerrors/input/json.py', "        ol = np.ravel(oa)\n        _assert_equal_properties(ol)", "        ol = np.ravel(oa, order='K')\n        _assert_equal_properties(ol)", 'C11-D3'),
+    ('gz-not-forwarded', 'pyerrors/input/json.py', "indata = load_json(fname, verbose=verbose, gz=gz, full_output=True)", "indata = load_json(fname, verbose=verbose, full_output=True)", 'C11-D6'),
     ('cdata-key', 'pyerrors/input/json.py', "            ed['cov'] = list(np.ravel(ol[0].covobs[name].cov))", "            ed['covariance'] = list(np.ravel(ol[0].covobs[name].cov))", None),
 ]
